@@ -14,14 +14,15 @@ import ControlModel.Model.Vars
 
 namespace Vars
 
-/-- Rank order for the command line of a task: workflow sources, then the
-    template's defaults, then the template's vars (BuildTaskCommand wraps in
-    that order). -/
-def rankedCmd (p : Path) (td tv : KV) : List KV := ranked p ++ [td, tv]
+/-- Rank order inside a task template as documented for every `defaults`/`vars`
+    pair ("values in vars override any defaults with the same key"): workflow
+    sources, then the template's vars, then the template's defaults. Demanded
+    for the command line and for the properties alike. -/
+def rankedTask (p : Path) (td tv : KV) : List KV := ranked p ++ [tv, td]
 
-/-- Rank order for the properties of a task: workflow sources, then the
-    template's vars, then the template's defaults (BuildPropertyMap). -/
-def rankedProp (p : Path) (td tv : KV) : List KV := ranked p ++ [tv, td]
+/-- What BuildTaskCommand actually does for the command line (finding
+    `task_template_defaults_over_vars`): the template's defaults BEFORE its vars. -/
+def rankedCmdAsCoded (p : Path) (td tv : KV) : List KV := ranked p ++ [td, tv]
 
 /-- What the documented rule demands to be observed at a role. -/
 def expected (keys : List String) (r : RoleIn) : RoleObs :=
@@ -34,7 +35,16 @@ def expected (keys : List String) (r : RoleIn) : RoleObs :=
              tabulate keys (firstDefined (uChain p))]
     stages := (List.range 6).map fun s => tabulate keys (firstDefined (rankedAt r.locals p s))
     task := r.tmpl.map fun (td, tv) =>
-      (tabulate keys (firstDefined (rankedCmd p td tv)), tabulate keys (firstDefined (rankedProp p td tv))) }
+      (tabulate keys (firstDefined (rankedTask p td tv)), tabulate keys (firstDefined (rankedTask p td tv))) }
+
+/-- The rule with the one recorded deviation built in (command line: template
+    defaults before template vars). Used by the driver only to classify a Spec
+    failure as the known finding. -/
+def expectedAsCoded (keys : List String) (r : RoleIn) : RoleObs :=
+  { expected keys r with
+    task := r.tmpl.map fun (td, tv) =>
+      (tabulate keys (firstDefined (rankedCmdAsCoded r.path td tv)),
+       tabulate keys (firstDefined (rankedTask r.path td tv))) }
 
 /-- Spec on one role: the observation is what the rule demands. -/
 def roleOk (keys : List String) (r : RoleIn) (obs : RoleObs) : Bool := decide (obs = expected keys r)
@@ -44,6 +54,16 @@ def caseOk (keys : List String) : List RoleIn → List RoleObs → Bool
   | [], [] => true
   | r :: rs, o :: os => roleOk keys r o && caseOk keys rs os
   | _, _ => false
+
+/-- Excluded hypothesis of `C14_model_meets_spec_partial` (known finding
+    `task_template_defaults_over_vars`): at this role the relative order of the
+    task template's defaults and vars cannot matter — for every key the workflow
+    defines it, or at most one of the two template maps does, or both agree. -/
+def tmplOrderIrrelevant (keys : List String) (r : RoleIn) : Bool :=
+  match r.tmpl with
+  | none => true
+  | some (td, tv) => keys.all fun k =>
+      (get (ranked r.path) k).isSome || (lookup td k).isNone || (lookup tv k).isNone || lookup td k == lookup tv k
 
 /-- The probed keys stay clear of the six task-special names. -/
 def keysClear (keys : List String) : Bool := keys.all fun k => !specialKeys.contains k
